@@ -57,6 +57,47 @@ func c04Pfx(pfx string) (string, error) {
 
 func c04Known(p string) bool { return p == "p" || p == "q" }
 
+// a second prefix environment: the verdict on a text depends on the prefixes known to *this* compilation
+func c04PfxB(pfx string) (string, error) {
+	switch pfx {
+	case "", "q", "zz":
+		return "urn:b:" + pfx, nil
+	}
+	return "", fmt.Errorf("unknown prefix %q", pfx)
+}
+
+func c04KnownB(p string) bool { return p == "q" || p == "zz" }
+
+// c04OtherEnv: the same text compiled again where other prefixes are known (after the first compilation).
+func c04OtherEnv(s string, leafrefGrammar bool, res *core.CaseResult) {
+	if !strings.Contains(s, ":") {
+		return
+	}
+	var want xp.Verdict
+	var got bool
+	pan, msg, _ := core.Guard(func() {
+		if leafrefGrammar {
+			want = xp.RecognisePathArg(s, c04KnownB)
+			m, err := leafref.NewLeafrefMachine(s, c04PfxB)
+			got = err == nil && m != nil
+		} else {
+			want = xp.RecogniseExpr(s, c04KnownB)
+			m, err := expr.NewExprMachine(s, c04PfxB)
+			got = err == nil && m != nil
+		}
+	})
+	g := map[bool]string{false: "expr", true: "leafref"}[leafrefGrammar]
+	res.Ev("texts_compiled_again_under_other_prefixes", 1)
+	switch {
+	case pan:
+		res.Fail("C04/"+g+"/other-prefix-environment/panic", s, msg)
+	case want == xp.Unasserted:
+	case got != (want == xp.Accept):
+		res.Fail("C04/"+g+"/other-prefix-environment/verdict-differs", s,
+			fmt.Sprintf("compiled first with p, q known (verdict as the reference), then with q, zz known: accepted=%v, reference verdict=%s", got, want))
+	}
+}
+
 // ---------------------------------------------------------------- case layout
 
 type c04Layout struct {
@@ -307,6 +348,7 @@ func c04CheckExpr(s string, res *core.CaseResult) {
 		} else {
 			res.Ev("rejected_by_both", 1)
 		}
+		c04OtherEnv(s, false, res)
 		return
 	}
 	// disagreement: explained by known constructs?
@@ -366,6 +408,7 @@ func c04CheckLeafref(s string, res *core.CaseResult) {
 		} else {
 			res.Ev("rejected_by_both", 1)
 		}
+		c04OtherEnv(s, true, res)
 		return
 	}
 	class := "C04/leafref/accepted-but-not-path-arg"
